@@ -21,7 +21,7 @@ func init() { rt.Register(&c08{}) }
 
 func (c08) ID() string { return "C08" }
 
-var c08Kinds = []string{"plain", "plain-mget", "plain-full", "plain-named", "ordered", "aggr", "aggr-ordered", "aggr-inter", "aggr-inter-ordered", "aggr-all", "delete", "delete-mget", "delete-full", "plain-filtered", "delete-filtered"}
+var c08Kinds = []string{"plain", "plain-mget", "plain-full", "plain-named", "ordered", "aggr", "aggr-ordered", "aggr-inter", "aggr-inter-ordered", "aggr-all", "delete", "delete-mget", "delete-full", "plain-filtered", "delete-filtered", "delete-mget-filtered"}
 
 // counts near the top of the integer range ("everything after the offset")
 var c08Huge = []int{math.MaxInt64, math.MaxInt64 - 1, 1 << 62}
@@ -118,6 +118,17 @@ func c08Store(r int, kind string) []refstore.Pair {
 // in the list) or full scan, all selecting the r pairs with prefix k.
 func c08Where(kind string, r int) string {
 	switch {
+	case strings.HasSuffix(kind, "-mget-filtered"):
+		// point reads combined through the symbol & with a condition that rejects listed,
+		// stored pairs (wave 14, C08-z: the unlimited DELETE removed every listed key, so the
+		// limited one was no longer a slice of it)
+		var b strings.Builder
+		b.WriteString("key in ('k999', 'k', 'kzz'")
+		for i := r - 1; i >= 0; i-- {
+			fmt.Fprintf(&b, ", 'k%03d', 'k%03d_'", i, i)
+		}
+		b.WriteString(") & value != 'drop'")
+		return b.String()
 	case strings.HasSuffix(kind, "-mget"):
 		var b strings.Builder
 		b.WriteString("key in ('k999'")
@@ -189,6 +200,37 @@ func (k c08) Run(c *rt.Ctx) {
 		}
 		if len(un.Rows) != cell.R && !strings.HasPrefix(cell.Kind, "aggr-inter") && cell.Kind != "aggr-all" {
 			c.Rec.NotJudged("unlimited result size differs from the steered size")
+		}
+		if strings.HasPrefix(cell.Kind, "delete") {
+			// "what the statement yields without the limit" is what the unlimited DELETE itself
+			// removes: the limited statements are judged against that set, in key order
+			qd := "delete where " + c08Where(cell.Kind, cell.R)
+			st := refstore.New(pairs)
+			od := drive.Run(qd, st, mode)
+			c.Rec.Eval(1)
+			if od.Status() != "ok" {
+				if od.Status() == "panic" || od.Status() == "runaway" {
+					c.Violation("crash", "unlimited delete panics: "+od.Frame, func() rt.D { return rt.D{"query": qd, "observed": outcomeBrief(od)} })
+				} else {
+					c.Rec.NotJudged("unlimited delete failed: " + firstWords(od.ErrText()))
+				}
+				continue
+			}
+			leftKeys := map[string]bool{}
+			for _, p := range st.Pairs() {
+				leftKeys[p.K] = true
+			}
+			var gone [][]string
+			for _, p := range pairs {
+				if !leftKeys[p.K] {
+					gone = append(gone, []string{drive.Norm([]byte(p.K))})
+				}
+			}
+			c.Rec.Inc("unlimited_deletes_run")
+			if len(gone) != len(un.Rows) {
+				c.Rec.Inc("unlimited_delete_differs_from_select")
+			}
+			un = &drive.Outcome{Rows: gone}
 		}
 		for _, s := range offs {
 			for _, n := range offs {
